@@ -122,8 +122,28 @@ pub fn take_last_panic() -> Option<(String, String)> {
 /// Run `f`, converting a panic into a Failure. A panic whose location is inside the harness is a harness bug and is
 /// tagged `harness-panic` (reported as inconclusive, exit 2, never as a violation).
 pub fn guarded<T>(f: impl FnOnce() -> T) -> Result<T, Failure> {
+    let _ = take_last_panic();
     match catch_unwind(AssertUnwindSafe(f)) {
-        Ok(v) => Ok(v),
+        Ok(v) => {
+            // A panic on this thread that did not unwind up to here was caught on the way: a foyer task that
+            // panicked inside the (single-threaded) runtime surfaces to its caller as a join error / cancelled
+            // task. It is a panic inside foyer during a valid history all the same.
+            match take_last_panic() {
+                None => Ok(v),
+                Some((msg, loc)) => {
+                    let short: String = msg.chars().take(120).collect();
+                    if loc.contains("/verif/") || loc.starts_with("core/src/") {
+                        Err(Failure::new("harness-panic", format!("harness panic (caught on the way): {msg} @ {loc}")))
+                    } else {
+                        let file = loc.rsplit('/').next().unwrap_or("").split(':').next().unwrap_or("").to_string();
+                        Err(Failure::new(
+                            format!("panic@{file}"),
+                            format!("panic inside foyer during a valid history (caught by the runtime, surfaced to the caller as an error): {short} @ {loc}"),
+                        ))
+                    }
+                }
+            }
+        }
         Err(_) => {
             let (msg, loc) = take_last_panic().unwrap_or_default();
             let short: String = msg.chars().take(120).collect();
